@@ -30,11 +30,11 @@ def _report(ctx, rows, what):
 def run(ctx):
     binary = ctx.build("pv-immutable")
     ctx.assume("blocks are identified by the bytes sliced from the chunk file with the secondary-index offsets (harness's own parser)")
-    ctx.assume("every chunk file holds at least one block; slots strictly increase (no Byron EBBs in the test database)")
+    ctx.assume("slots strictly increase (no Byron EBBs in the test database); chunk files may be empty")
     ctx.assume("the reader drops the lexicographically last chunk file (documented in build_stack_of_chunk_names); the spec follows it")
 
     # 1. exhaustive: design model of the reader vs the property, all small databases
-    max_slot = 9 if ctx.thorough else 7
+    max_slot = 7 if ctx.thorough else 5
     cfg = ctx.path("MC.cfg")
     src = open(os.path.join(vlib.SPEC, SPEC, "MCImmutableDb.cfg")).read()
     open(cfg, "w").write(src.replace("MaxSlot = 7", "MaxSlot = %d" % max_slot))
@@ -66,7 +66,7 @@ def run(ctx):
     # 3. M1b: small databases enumerated by TLC, materialised with real blocks
     gcfg = ctx.path("GenSmall.cfg")
     src = open(os.path.join(vlib.SPEC, SPEC, "GenImmutableSmall.cfg")).read()
-    open(gcfg, "w").write(src.replace("MaxSlot = 5", "MaxSlot = %d" % (7 if ctx.thorough else 5)))
+    open(gcfg, "w").write(src.replace("MaxSlot = 5", "MaxSlot = %d" % (6 if ctx.thorough else 4)))
     vec2 = ctx.path("vec_small.ndjson")
     n2 = ctx.tlc_gen(SPEC, "GenImmutableSmall", gcfg, vec2, timeout=1500)
     res2 = ctx.path("res_small.ndjson")
@@ -86,7 +86,7 @@ def run(ctx):
     bad += _report(ctx, rows2, "real reader differs from ImmutableDb.tla on a TLC-enumerated database")
 
     # 4. binding self-test: shift every expected start index by one => the replay must object
-    if not bad:
+    if not ctx.violations:
         st = ctx.path("res_selftest.ndjson")
         with open(vec) as f:
             trimmed = [json.loads(x) for x in f]
@@ -117,8 +117,8 @@ def run(ctx):
         ctx.selftest("one block removed from the expected read_blocks sequence", s2[0]["mismatches"] > 0)
 
     return ctx.finish(
-        rule="MC: all databases <= 4 chunk files x <= 3 blocks over slots 0..%d, every exact/fuzzy/origin point: design model "
-             "allowed by the property; M1: TLC's All/Tip/SpecStart for the test database (7 chunk-file subsets; exact, "
+        rule="MC: all databases <= 5 chunk files (up to 2 of them empty) x <= 3 blocks over slots 0..%d, every exact/fuzzy/origin point: design model "
+             "allowed by the property; M1: TLC's All/Tip/SpecStart for the test database (13 chunk-file subsets incl. empty chunk files first / in the middle / last immutable / two in a row; exact, "
              "absent and fuzzy points incl. slot ranges between blocks) and for every TLC-enumerated small database "
              "(materialised as files of real blocks) compared with the real reader block by block" % max_slot,
         exhaustive=False)
